@@ -160,6 +160,15 @@ def run_case(case):
         pidx = int(bad[0][1])
         viol.append(V(site, "value_differs_from_exact_operator",
                       f"d={d} time={time} n_out={n_out} field [{labels[fidx]}] at point {pts[pidx].tolist()} (order: {'t,' if time else ''}x): got {got[fidx, pidx].tolist()} exact {exact[fidx, pidx].tolist()}; {len(set(int(b[0]) for b in bad))} field(s) affected"))
+    # eager spot checks: the same operators called directly (no jit, no vmap), unrelated parameters given as Python numbers
+    if op != "advection_ns" and not viol:
+        eqp_py = {"nu": 0.3, "k": 2}
+        for fi in sorted({0, len(labels) // 2, len(labels) - 1}):
+            for pi in (0, len(pts) - 1):
+                e = np.asarray(kern(fields[fi], zp[pi], eqp_py))
+                ex = exact[fi, pi]
+                if np.any(np.abs(e - ex) > 1e-9 * (1 + np.abs(ex))):
+                    viol.append(V(site, "eager_value_differs_from_exact_operator", f"d={d} time={time} n_out={n_out} field [{labels[fi]}] point {pts[pi].tolist()}: got {e.tolist()} exact {np.asarray(ex).tolist()}"))
     nontrivial = [f"{op}|{d}|{time}|{n_out}|{labels[i]}" for i in range(len(labels)) if np.any(np.abs(exact[i]) > 0)]
     return dict(viol=viol, evals=int(exact.shape[0] * exact.shape[1]) * 2, nontrivial=nontrivial,
                 outcomes=[f"{op}|{d}|{time}|{n_out}|{round(float(np.sum(np.abs(exact))), 6)}"],
